@@ -5,7 +5,7 @@ ENGINES = [
     {"name": "E2-sched", "path": "mc/sched.py", "serves_properties": ["C02", "C05"],
      "kind_free_text": "stateless preemption-bounded exploration of the real joblib thread-pool tasks under a baton "
                        "scheduler (sys.settrace scheduling points), one pool invocation at a time"},
-    {"name": "E1-enum", "path": "mc/core.py", "serves_properties": ["C01", "C02", "C03", "C05", "C11", "C12", "C13", "C14", "C17", "C18", "C19", "C20"],
+    {"name": "E1-enum", "path": "mc/core.py", "serves_properties": ["C01", "C02", "C03", "C05", "C07", "C11", "C12", "C13", "C14", "C17", "C18", "C19", "C20"],
      "kind_free_text": "bounded exhaustive enumeration of inputs/configurations/operation sequences on the real code "
                        "with reference-model or differential oracle; 16 forked workers"},
 ]
@@ -152,6 +152,21 @@ CHECKS.update({
              "row must come out exactly once, unmodified, globally sorted, independent of chunk size and of how the "
              "rows are split; an input with an inversion must be rejected or still yield a sorted result.",
         note="Tie order is free; reader chunk sizes run to the longest input + 1."),
+})
+
+CHECKS.update({
+    "C07": dict(
+        level="exploration", engine="E1-enum", design="DESIGN.md 4/C07",
+        technique="exhaustive enumeration of the product datasets x label encodings x feature direction x scripted "
+                  "estimators x format x override; accepted-count rule evaluated by the C01 reference on genuine labels",
+        text="brew is run with estimators that learn, cannot learn, learn the inverse or degrade on unseen rows, for "
+             "every label encoding (1/-1, 1/0, bool), higher- and lower-is-better best features, text and Parquet, "
+             "override on/off; whenever model scores are returned they must accept at least as many genuine targets "
+             "(C01 reference) as the best feature did in training, a fallback must return exactly that feature with "
+             "its direction, and assign_confidence on the returned (scores, descs) must compete, order and compute "
+             "q-values in the returned direction.",
+        note="feat_pass/best_feat/desc are read from the returned models (public attributes named by the property). "
+             "Known finding F06 (ascending direction ignored by assign_confidence) is reported as KNOWN-FINDING."),
 })
 
 NA = {
